@@ -103,6 +103,27 @@ pub fn run(entry: &str, class: &str) {
             <Arc<A> as arc_swap::RefCnt>::inc(h);
             p
         }, |h: &Arc<A>| Arc::strong_count(h)),
+        // clone_from: the destination (a handle to another value) becomes one more owner of the source
+        "arc_clone_from" => go!(Arc::new(A::mk(1)), |h: &Arc<A>| Arc::strong_count(h), |h: &Arc<A>| {
+            let mut d = Arc::new(A::mk(2));
+            d.clone_from(h);
+            d
+        }, |h: &Arc<A>| Arc::strong_count(h)),
+        "offset_clone_from" => go!(Arc::into_raw_offset(Arc::new(A::mk(1))), |h: &OffsetArc<A>| OffsetArc::strong_count(h), |h: &OffsetArc<A>| {
+            let mut d = Arc::into_raw_offset(Arc::new(A::mk(2)));
+            d.clone_from(h);
+            d
+        }, |h: &OffsetArc<A>| OffsetArc::strong_count(h)),
+        "thin_clone_from" => go!(ThinArc::<A, u32>::from_header_and_slice(A::mk(1), &[1, 2]), |h: &ThinArc<A, u32>| ThinArc::strong_count(h), |h: &ThinArc<A, u32>| {
+            let mut d = ThinArc::<A, u32>::from_header_and_slice(A::mk(2), &[3]);
+            d.clone_from(h);
+            d
+        }, |h: &ThinArc<A, u32>| ThinArc::strong_count(h)),
+        "union_clone_from" => go!(ArcUnion::<A, B>::from_first(Arc::new(A::mk(1))), |h: &ArcUnion<A, B>| ArcUnion::strong_count(h), |h: &ArcUnion<A, B>| {
+            let mut d = ArcUnion::<A, B>::from_first(Arc::new(A::mk(2)));
+            d.clone_from(h);
+            d
+        }, |h: &ArcUnion<A, B>| ArcUnion::strong_count(h)),
         // one more clone through a shared reference to the same handle (another thread's), right before the
         // victim's 2nd / 3rd operation on the count: a clone that reads the count and installs the increment
         // separately must still abort when the count it finally increments has passed the limit
